@@ -575,6 +575,10 @@ def run(ctx):
     # "Delimiter.remove / index bookkeeping after a match": the delimiter stack surgery, on bounded stacks (C06's simulation)
     from . import c06
     c06.rule_stack_sim(ctx, rep, only_raises=True)
+    # the definition reader on the table of the definition grammar: no row raises, and every match it hands to the
+    # constructors of either token set has the same number of fields (shared with C07)
+    from . import c07
+    c07.rule_def_rows(ctx, rep, rule='R-DEF-TOTAL')
     from . import c01_lint
     c01_lint.rule_idx(ctx, rep)
     c01_lint.rule_loop(ctx, rep)
